@@ -305,19 +305,33 @@ pub(crate) fn cc_clone_panics_at_max() {
     core::mem::forget((h, h2));
 }
 
-/// ... and the count is unchanged at that panic: the only write before the test is none
-/// (the leaf contract gives Err => word unchanged; here: no other write precedes the panic).
-//@ C16 | complete | deciding | feat=full,std | fn=Cc::clone
+/// ... and the REAL `Cc::clone`, run through the emulated unwind out of its own limit panic (H5): what the
+/// caller of a caught panic sees — count, flags, buffer membership, collector state — is what it was before.
+/// Any local with drop glue that is live at the panic site is dropped by the emulated unwind, as by the real one.
+//@ C16 C04 | complete | deciding | feat=full,std | fn=Cc::clone | timeout=600
 #[kani::proof]
-pub(crate) fn cc_clone_at_max_leaves_words() {
+#[kani::unwind(9)]
+pub(crate) fn cc_clone_at_max_unwinds_leaving_everything() {
     let h = mk_node(0);
-    let x = raw_of(&h);
-    let (t0, c0) = havoc_idle(x, false);
+    let y = mk_node(1);
+    let z = mk_node(2);
+    let (x, py, pz) = (raw_of(&h), raw_of(&y), raw_of(&z));
+    let in_pc: bool = kani::any();
+    let (arr, n) = build_pc(x, [py, pz], in_pc);
+    let (t0, c0) = havoc_idle(x, in_pc);
     kani::assume(c0 & 0x3fff == 16382);
-    // the prefix of Cc::clone up to the panic is exactly this call
-    let r = cm_of(x).increment_counter();
-    kani::assert(r.is_err() && words_of(x) == (t0, c0), "Cc::clone::post::count_unchanged_at_limit");
-    core::mem::forget(h);
+    let fl = any_flags_not_tracing();
+    let sn0 = state(|s| sp::snap(s));
+    g().emulate_limit_panics = true;
+    let h2 = h.clone();
+    core::mem::forget(h2); // poisoned result of the emulated unwind: never existed for the caller
+    g().emulate_limit_panics = false;
+    kani::assert(ghost::catch(), "Cc::clone::post::panics_at_limit");
+    kani::assert(words_of(x) == (t0, c0), "Cc::clone::unwind::count_and_flags_unchanged_after_the_caught_panic");
+    { let (a, b) = pc_is(&arr, n, None); kani::assert(a && b, "Cc::clone::unwind::buffer_unchanged_after_the_caught_panic"); }
+    kani::assert(state(|s| sp::snap(s)) == sn0, "Cc::clone::unwind::collector_state_unchanged");
+    kani::assert(peek_node(&h).intact() && g().n_trace == 0 && g().n_fin == 0 && g().n_drop == 0, "Cc::clone::unwind::no_callback_value_intact");
+    core::mem::forget((h, y, z));
 }
 
 //@ C12 | complete | deciding | feat=full,std | fn=Cc::clone | panic=Cannot clone while tracing!
